@@ -1823,9 +1823,13 @@ impl<K: AsRef<Key>> ServerError<K> {
         let mut builder = builder.additional();
         match self.0 {
             ServerErrorInner::Unsigned { error } => {
-                let tsig = {
-                    MessageTsig::from_message(msg)
-                        .expect("missing or malformed TSIG record")
+                // If the request was refused because its TSIG record is
+                // misplaced, present twice or malformed, there is no
+                // record we could mirror. RFC 8945, section 5.2 asks for
+                // a plain FORMERR in these cases.
+                let Ok(tsig) = MessageTsig::from_message(msg) else {
+                    builder.header_mut().set_rcode(Rcode::FORMERR);
+                    return Ok(builder);
                 };
                 builder.push((
                     tsig.record.owner(),
